@@ -461,13 +461,15 @@ StructAlphabet ==      \* C16: .repeat bodies (own '.', impure operators, hoiste
     [k |-> "end"], Inc(1), Inc(2), Lab("a"), Lab("1"), Const("c", Num(3)), I0("nop"), W(<<A, Dot>>), By(<<Num(5)>>) }
 StructDirAlphabet ==   \* C16: the directory- and command-line-related part of StructAlphabet, small enough for all 2-file programs
   { [k |-> "insert", len |-> 7, nm |-> "d"], [k |-> "insert", len |-> 7], Inc(1), Inc(3), [k |-> "linkinc", f |-> 1], [k |-> "linkinc", f |-> 3],
-    I0("nop"), By(<<Num(5)>>), Rep(2, << [k |-> "insert", len |-> 7, nm |-> "d"] >>), Rep(2, << Inc(3) >>) }
+    I0("nop"), By(<<Num(5)>>), Rep(2, << [k |-> "insert", len |-> 7, nm |-> "d"] >>), Rep(2, << Inc(3) >>), Inc(4) }
 StructBigAlphabet ==   \* C16: large repeat counts (the property's n <= 40), kept out of the exhaustive alphabet for size
   { Rep(40, << By(<< Bin("-", Dot, A) >>) >>), Rep(17, << W(<< Dot >>), I1("movr", A) >>), Rep(33, << Rep(2, << [k |-> "even"], By(<< Num(1) >>) >>) >>),
     Lab("a"), I0("nop"), By(<< Num(5) >>) }
 StructIncFiles == << [name |-> "i1", body |-> << [k |-> "once"], LabX("x"), W(<< Sym("x"), Dot >>) >>],
                      [name |-> "i2", body |-> << W(<< Dot >>), [k |-> "end"], W(<< Sym("undefined") >>) >>],
-                     [name |-> "i3", dir |-> "sub", body |-> << [k |-> "insert", len |-> 5, nm |-> "d"], By(<< Num(9) >>) >>] >>
+                     [name |-> "i3", dir |-> "sub", body |-> << [k |-> "insert", len |-> 5, nm |-> "d"], By(<< Num(9) >>) >>],
+                     \* a file in the sub-directory that includes its neighbour ("i3.mac") and a file of the parent directory ("../i2.mac")
+                     [name |-> "i4", dir |-> "sub", body |-> << Inc(3), By(<< Num(4) >>), Inc(2) >>] >>
 
 ListAlphabet ==        \* C19: ordinary symbols of any value (negative, > 16 bit, > 18 bit, equal values), dotted names, labels, exports, includes
   { Lab("a"), Lab("b"), LabX("c"), Lab("1"), Const("n", Num(-5)), Const("big", Num(70000)), Const("z", Num(0)), ConstX("m", Bin("-", B, A)),
